@@ -299,6 +299,8 @@ func (c *replicaClient) GetReplicaAckIndex(ctx context.Context, in *protoReplica
 		w.hsRemoteAck = r.AckIndex
 		w.hsLeaderApp = w.lq.Queue().AppendedSeq()
 		w.hsLeaderCons = c.p.grp.ConsumedSeq()
+		w.hsLeaderGack = c.p.grp.AcknowledgedSeq()
+		w.hsPostSeen = false
 	}
 	return r, err
 }
@@ -306,6 +308,12 @@ func (c *replicaClient) Replica(ctx context.Context, _ ...grpc.CallOption) (prot
 	p := c.p
 	if p.connClosed(c.conn) {
 		return nil, errConnClosing
+	}
+	if p.w.hsSeen && !p.w.hsPostSeen && p.grp != nil && p.fq != nil {
+		// IsReady's handshake has returned true and Connect is about to open the stream
+		p.w.hsPostSeen = true
+		p.w.hsPostCons = p.grp.ConsumedSeq()
+		p.w.hsPostFApp = p.fq.Queue().AppendedSeq()
 	}
 	if p.w.fault == "connect" {
 		return nil, errors.New("injected connect failure")
@@ -426,6 +434,12 @@ type world struct {
 	hsSeen, hsReset                   bool
 	hsRemoteAck, hsLeaderApp          int64
 	hsLeaderCons                      int64
+	// round 12: the handshake's post-condition on the real counters. hsLeaderGack = the group's ack when the
+	// handshake read the follower's index; hsPost* = the group's consumed sequence and the follower's appended
+	// sequence at the moment Connect opens the stream (IsReady has just returned true, nothing sent yet)
+	hsLeaderGack            int64
+	hsPostSeen              bool
+	hsPostCons, hsPostFApp  int64
 
 	// area `tick` (tick.go): the gate inside the loopback's Send and the expiry check held at its yield point
 	tickGate   chan string   // non-nil: Send waits here for "ack" / "lose"
@@ -799,6 +813,7 @@ func (w *world) resetStepFlags(fault string) {
 	w.sendTried, w.sendFailed, w.recvFailed, w.lostInFlight, w.putFailed = false, false, false, false, false
 	w.lastReq, w.lastResp = nil, nil
 	w.hsSeen, w.hsReset = false, false
+	w.hsPostSeen = false
 }
 
 // ---- where a goroutine is, read from the runtime's own goroutine dump (taken with the world stopped). The
@@ -1365,6 +1380,24 @@ func (w *world) check(c *core.Ctx, op, out string, ep *peer, pre, post obs) {
 		}
 		if mine && w.putFailed {
 			p.putDisturbed = true
+		}
+		// (0) round 12 — the handshake's post-condition (Props.C08.resync_handshake / plan_resync_handshake), judged
+		// at the moment IsReady has returned true and before anything is sent: the leader's next replica index =
+		// the follower's next index = max(follower's next index before, group ack + 1) — "resumes from the first
+		// position the follower lacks and the leader still holds", whichever branch of the handshake ran
+		if mine && w.hsSeen && w.hsPostSeen {
+			want := w.hsRemoteAck
+			if w.hsLeaderGack > want {
+				want = w.hsLeaderGack
+			}
+			c.Branch("handshake/post-checked")
+			if w.hsReset && w.hsLeaderCons > w.hsLeaderGack {
+				c.Branch("handshake/reset-follower-with-unacked-in-flight")
+			}
+			if w.hsPostCons != want || w.hsPostFApp != want {
+				fail("handshake-resumes-at-wrong-index", fmt.Sprintf("after the handshake of %q (follower appended %d, group consumed %d, group ack %d before) the leader's next replica index is %d and the follower's next index is %d, both must be %d",
+					op, w.hsRemoteAck, w.hsLeaderCons, w.hsLeaderGack, w.hsPostCons+1, w.hsPostFApp+1, want+1))
+			}
 		}
 		// (1) the follower's log has no holes
 		for j, h := range po.fHeld {
